@@ -26,6 +26,8 @@ def make_frame(rows, rng, index_kind, store=None, codes=None):
     for col, j in (('e', 0), ('y', 1)):
         if store and store.get(col) == 'Int64' and not (col == 'e' and codes):
             df[col] = df[col].astype('Int64')          # pandas' nullable integers (convert_dtypes(), read_csv(dtype_backend=...)): hold <NA>
+        elif store and store.get(col) in ('float16', 'float32') and not (col == 'e' and codes):
+            df[col] = df[col].astype(store[col])           # half / single precision hold 0, 1 and NaN exactly (a memory-saving downcast)
         elif store and store.get(col) and not any(r[j] is None for r in rows) and not (col == 'e' and codes):
             df[col] = df[col].astype(store[col])
     # a bystander column the analysis does not name, with missing values of its own (most real frames have some)
@@ -111,6 +113,15 @@ def gen_cases(ctx):
         r.shuffle(rows)
         st = [('int8', 'int8'), ('uint8', 'uint8'), ('int16', 'int8'), ('int8', None), (None, 'uint8'), ('bool', 'bool')][k % 6]
         cases.append({'rows': rows, 'reference': r.choice([0, 1]), 'index': 'range', 'kind': 'large-compact', 'store': {'e': st[0], 'y': st[1]}})
+    # half-precision storage of the 0/1/NaN columns with cells beyond 2048 (where float16 stops counting in steps of one)
+    for k in range(2 if ctx.quick else 8):
+        r = ctx.rng
+        a, b, c, d = [r.randint(2049, 2600) | 1 for _ in range(4)]
+        rows = [(1, 1)] * a + [(1, 0)] * b + [(0, 1)] * c + [(0, 0)] * d + [(r.randint(0, 1), None) for _ in range(r.randint(3, 20))]
+        r.shuffle(rows)
+        st = [('float16', 'float16'), (None, 'float16'), ('float32', 'float16'), ('float16', 'float32')][k % 4]
+        cases.append({'rows': rows, 'reference': r.choice([0, 1]), 'index': 'range', 'kind': 'large-half-precision', 'miss': 'y',
+                      'store': {'e': st[0], 'y': st[1]}})
     return cases
 
 
